@@ -7,6 +7,7 @@ import (
 	"fmt"
 	"io"
 	mrand "math/rand/v2"
+	"strings"
 	"sync"
 	"time"
 
@@ -29,6 +30,13 @@ type C19Plan struct {
 	Delays  bool        `json:"delays"` // PRNG-chosen virtual delays at transport and module callbacks
 	Payload int         `json:"payload"`
 	DevMTU  int         `json:"dev_mtu"`
+	// CancelAfter > 0: the context of device 1's TO2 is cancelled that many
+	// scheduler steps after its TO2 began (a timeout or shutdown at an arbitrary
+	// instant). The call must return; the other devices are unaffected.
+	CancelAfter int `json:"cancel_after,omitempty"`
+	// CancelSite: instead, cancel exactly when a task is about to continue from
+	// the CancelAfter-th yield site whose name starts with this prefix.
+	CancelSite string `json:"cancel_site,omitempty"`
 }
 
 type c19 struct{ noPrepare }
@@ -41,6 +49,7 @@ func (p *c19) NewPlan() any  { return &C19Plan{} }
 func (p *c19) Rule() string {
 	return "N in 2..16 (quick) / 2..64 (thorough) devices with mixed key types, key exchanges and ciphers run DI, voucher extension, TO0, TO1 and TO2 (with a per-device ping module whose payload is derived from the device identity) concurrently as tasks of the seeded scheduler against ONE node hosting all responders over one store (simstore or sqlite); interleaving at every network event, state-backend method, module callback and verif hook of the device pipeline, plus PRNG-chosen virtual delays; binary built with the Go race detector; oracle: every device succeeds as it does alone (solo baseline of device 0 in a fresh world), its stored replacement voucher agrees with its credential (independent recomputation), module payloads received on either side are its own, no response delivered to a device contains another device's GUID, no deadlock, zero race reports with a library frame; non-trivial = at least two tasks were runnable at some step; distinct = distinct (schedule, N, backend, outcome)"
 }
+func (p *c19) DeadlockIsViolation() bool { return true }
 func (p *c19) Exhaustive(string) bool { return false }
 func (p *c19) Components() map[string][]string {
 	return map[string][]string{
@@ -73,8 +82,19 @@ func (p *c19) Plan(tier string, seed uint64, i int) any {
 	if i%5 == 4 {
 		n = 2 + r.IntN(maxN-1)
 	}
-	return &C19Plan{Seed: seed*1_000_003 + uint64(i), N: n, Sql: i%4 == 3, Sched: []SchedPolicy{SchedRandom, SchedPCT}[i%2], Delays: i%3 != 0,
+	pl := &C19Plan{Seed: seed*1_000_003 + uint64(i), N: n, Sql: i%4 == 3, Sched: []SchedPolicy{SchedRandom, SchedPCT}[i%2], Delays: i%3 != 0,
 		Payload: 1 + r.IntN(3000), DevMTU: []int{0, 256, 1300, 4000}[r.IntN(4)]}
+	if i%4 == 1 {
+		pl.CancelAfter = 1 + r.IntN(60*n)
+		pl.N = min(pl.N, 4)
+		if i%8 == 1 {
+			// at exact program points of the device pipeline
+			pl.CancelSite = c19CancelSites[(i/8)%len(c19CancelSites)]
+			pl.CancelAfter = 1 + r.IntN(12)
+			pl.N = 2
+		}
+	}
+	return pl
 }
 
 func (p *c19) Shrink(plan any) []any {
@@ -93,6 +113,13 @@ func (p *c19) Shrink(plan any) []any {
 		c := *pl
 		c.Delays = false
 		out = append(out, &c)
+	}
+	if pl.CancelAfter > 1 {
+		for _, v := range []int{pl.CancelAfter - 1, pl.CancelAfter / 2} {
+			c := *pl
+			c.CancelAfter = v
+			out = append(out, &c)
+		}
 	}
 	if pl.Sql {
 		c := *pl
@@ -250,6 +277,8 @@ func (d *c19Device) Receive(ctx context.Context, name string, body io.Reader, re
 }
 func (d *c19Device) Yield(context.Context, func(string) io.Writer, func()) error { return nil }
 
+var c19CancelSites = []string{"to2.moduleHandler.wait", "to2.moduleHandler.start", "to2.moduleHandler.joined", "Close.", "nextPipe.", "bufPipe.Read", "bufPipe.Write", "bufPipe.Close", "mod.", "ChunkReader.", "ChunkWriter.", "UnchunkReader."}
+
 var c19Cfgs = []struct {
 	Key    string
 	Enc    uint8
@@ -272,6 +301,10 @@ type c19Result struct {
 
 func c19World(pl *C19Plan, n int, seedSalt uint64) (results []c19Result, k *Kernel, s *World, modErrs []string, cleanup func()) {
 	ctx := context.Background()
+	cancelAfter := pl.CancelAfter
+	if seedSalt != 0 {
+		cancelAfter = 0 // the solo baseline runs to completion
+	}
 	k = NewKernel(pl.Seed+seedSalt, pl.Sched, 3000000)
 	w := NewWorld(k)
 	var node *Node
@@ -340,6 +373,33 @@ func c19World(pl *C19Plan, n int, seedSalt uint64) (results []c19Result, k *Kern
 				return
 			}
 			dm := &c19Device{k: k, guid: dev.Cred.GUID, size: pl.Payload, delays: pl.Delays, r: mrand.New(mrand.NewPCG(pl.Seed, uint64(i)))}
+			ctx := ctx
+			if i == 0 && cancelAfter > 0 {
+				var cancel context.CancelFunc
+				ctx, cancel = context.WithCancel(ctx)
+				defer cancel()
+				start := k.StepCount()
+				if pl.CancelSite != "" {
+					seen := 0
+					k.OnRelease = func(task, site string) {
+						if strings.HasPrefix(site, pl.CancelSite) {
+							if seen++; seen == cancelAfter {
+								cancel()
+							}
+						}
+					}
+					defer func() { k.OnRelease = nil }()
+				} else {
+					k.Go("canceller", func() {
+						for k.StepCount() < start+cancelAfter {
+							if k.Yield("cancel.wait") == 0 {
+								break
+							}
+						}
+						cancel()
+					})
+				}
+			}
 			_, err = w.TO2(ctx, dev, "aio", to1d, TO2Opts{Kex: kex.Suite(c.Kex), Cipher: CipherSpecByName(c.Cipher).ID, MTU: uint16(pl.DevMTU),
 				Modules: map[string]serviceinfo.DeviceModule{"ping": dm}})
 			res.bad, res.got = dm.bad, dm.got
@@ -351,7 +411,9 @@ func c19World(pl *C19Plan, n int, seedSalt uint64) (results []c19Result, k *Kern
 		})
 	}
 	k.Run()
-	wg.Wait()
+	if !k.Deadlock {
+		wg.Wait()
+	}
 	return results, k, w, modErrs, cleanup
 }
 
@@ -371,6 +433,17 @@ func (p *c19) Exec(env *Env, plan any) {
 	o.Nontrivial = k.MultiSteps > 0
 	o.SimTimeS = time.Since(env.Start).Seconds()
 	env.Logf("plan n=%d sql=%v sched=%s delays=%v steps=%d maxRunnable=%d", pl.N, pl.Sql, o.Sched, pl.Delays, k.Steps, k.MaxRunnable)
+	if pl.CancelAfter > 0 {
+		// cancellation makes selects in the library ready on several cases at
+		// once; the Go runtime then chooses by its own random source
+		o.Unstable = true
+	}
+	if k.Deadlock {
+		// tasks are blocked for good; their results are not read
+		o.Class = "DEADLOCK"
+		o.Violate("C19", "deadlock", fmt.Sprintf("sql=%v cancel=%q", pl.Sql, pl.CancelSite), "the simulated system deadlocked (N=%d, cancel after %d at %q): a task never returned", pl.N, pl.CancelAfter, pl.CancelSite)
+		return
+	}
 	for i, r := range results {
 		env.Logf("dev%d ok=%v err=%s", i+1, r.ok, r.err)
 	}
@@ -390,6 +463,11 @@ func (p *c19) Exec(env *Env, plan any) {
 	node := w.Nodes["aio"]
 	fails := 0
 	for i, r := range results {
+		if !r.ok && i == 0 && pl.CancelAfter > 0 && strings.HasPrefix(r.err, "TO2:") {
+			// the cancelled call returned with an error: that is its contract
+			o.Fault("context-cancelled")
+			continue
+		}
 		if !r.ok {
 			fails++
 			o.Class = "DEVICE-FAILED"
@@ -459,7 +537,7 @@ func (p *c19) Exec(env *Env, plan any) {
 	cleaned = true
 	solo, _, _, _, cleanup2 := c19World(pl, 1, 7777)
 	defer cleanup2()
-	if solo[0].ok != results[0].ok {
+	if solo[0].ok != results[0].ok && pl.CancelAfter == 0 {
 		o.Violate("C19", "outcome-differs-from-solo", "baseline", "device 1 alone: ok=%v (%s); among %d devices: ok=%v (%s)", solo[0].ok, solo[0].err, pl.N, results[0].ok, results[0].err)
 	}
 	o.Sample = map[string]any{"n": pl.N, "sql": pl.Sql, "steps": k.Steps, "max_runnable": k.MaxRunnable, "race_build": RaceBuild}
